@@ -63,6 +63,9 @@ def gen_spec(rng, cfg):
             return "r%s_%s" % (salt, nm)   # key that contains a container label (r<salt> is the first root)
         if r < 0.23:
             return "%s[%s].x" % (nm, salt)  # key that looks like a path
+        if r < 0.27:
+            # non-ASCII text in a key: a character of the basic plane, or one beyond it (U+1D54F, U+1F600)
+            return "%s%s%s" % (nm, rng.choice(["\u00e9", "\U0001d54f", "\U0001f600", "\u4e2d"]), salt)
         return "%s%s" % (nm, salt)
 
     def leaf():
